@@ -77,6 +77,9 @@ def main():
                     print("   ", l[:300])
         finally:
             sh("git checkout -- .", "/repo")
+            # the evidence files of this run describe the CHANGED tree: put the committed ones (unchanged tree) back
+            sh("git checkout -- evidence", "/verif")
+            sh("rm -rf " + " ".join("/verif/replays/%s-*" % c for c in checks), "/verif")
     dst = "/verif/seeded/%s%s" % (pid, var)
     os.makedirs(dst, exist_ok=True)
     shutil.copy(patch, dst)
